@@ -422,7 +422,12 @@ def worker_env(ndev=None):
     env["TF_CPP_MIN_LOG_LEVEL"] = "3"
     flags = "--xla_cpu_multi_thread_eigen=false"
     if ndev:
-        flags = f"--xla_force_host_platform_device_count={ndev} " + flags
+        # forced host devices: on a heavily loaded machine a device thread of a CPU pmap can be starved for longer than XLA's
+        # default 40 s collective rendezvous limit (the process is then aborted -> BrokenProcessPool -> exit 2)
+        flags = (f"--xla_force_host_platform_device_count={ndev} " + flags +
+                 " --xla_cpu_collective_call_terminate_timeout_seconds=1800"
+                 " --xla_cpu_collective_call_warn_stuck_timeout_seconds=600"
+                 " --xla_cpu_collective_timeout_seconds=1800")
     env["XLA_FLAGS"] = flags
     return env
 
